@@ -3,6 +3,7 @@ package props
 import (
 	"fmt"
 	"math/big"
+	"strconv"
 	"strings"
 	"testing"
 
@@ -196,6 +197,14 @@ func genFMA(t *rapid.T, specials bool) C03Case {
 		uv := model.MkFinite(!prod.Neg, strings.Repeat("9", m), prod.Exp-1)
 		if rapid.IntRange(0, 4).Draw(t, "s.same") == 0 {
 			uv.Exp = prod.Exp
+		}
+		if rapid.IntRange(0, 2).Draw(t, "s.top") == 0 {
+			// the addend cancels the leading part of the (sparse) product exactly - a short addend - and what is left
+			// is the product's low part, dozens of zeros further down
+			k := rapid.IntRange(1, len(prod.Digits)).Draw(t, "s.topk")
+			if top := strings.TrimRight(prod.Digits[:k], "0"); top != "" {
+				uv = model.MkFinite(!prod.Neg, top, prod.Exp)
+			}
 		}
 		c.X, c.Y, c.U = mk(xv, "x"), mk(yv, "y"), mk(uv, "u")
 		c.P = uint(rapid.SampledFrom([]int{1, 2, 18, 19, 20, 37, 38, 39, 57}).Draw(t, "s.p"))
@@ -508,10 +517,90 @@ func checkFMAZone(c C03Case, o *h.Obs, fused model.Res, nan bool, got h.Snap, al
 	return nil
 }
 
-const ruleC03 = "rapid-generated (x, y, u, precision, mode, aliasing shape): small scope (1-3 digit operands, precision 1-4), massive cancellation u=-(x*y)+delta, the sum/difference cases of C01 replayed as FMA(x, 10^j, u), chosen exact sums (S a rounding pattern at the precision, u := S - x*y with a multi-word product placed around or up to 80 digits below the rounding position), products carrying a tie/all-nines pattern at the precision with u one unit far below (single vs double rounding), products with one to three significant digits (often exact powers of ten, 2^i * 5^i) with the addend placed within two digits of the receiver's last digit position and mostly of opposite sign (the sum crosses a decade), sparse multi-word products 1 0..0 d 0..0 d against an addend -(99..9) one exponent below (decade-crossing cancellation that brings deep product digits to the front), zero and infinite operands in every position, product exponent near the range ends, generic word-patterned operands up to 300 (quick) / 4000 (thorough) digits; receiver fresh or aliased to x, y, u, x=y, x=u. Oracle: exact big.Int x*y+u rounded once (value, sign incl. IEEE zero-sum rule, accuracy), ErrNaN exactly for 0*Inf and Inf-Inf. Non-trivial = special operand, aliased receiver, Mul-then-Add would differ, exactly zero sum, or cancellation removing at least half of the product's digits. Cases whose exact product exponent leaves [MinExp,MaxExp] are excluded while the known finding F-03c is listed (counted under excluded_known)."
+const ruleC03 = "rapid-generated (x, y, u, precision, mode, aliasing shape): small scope (1-3 digit operands, precision 1-4), massive cancellation u=-(x*y)+delta, the sum/difference cases of C01 replayed as FMA(x, 10^j, u), chosen exact sums (S a rounding pattern at the precision, u := S - x*y with a multi-word product placed around or up to 80 digits below the rounding position), products carrying a tie/all-nines pattern at the precision with u one unit far below (single vs double rounding), products with one to three significant digits (often exact powers of ten, 2^i * 5^i) with the addend placed within two digits of the receiver's last digit position and mostly of opposite sign (the sum crosses a decade), sparse multi-word products 1 0..0 d 0..0 d against an addend -(99..9) one exponent below, or against the negated leading part of the product itself (a short addend that leaves the product's low part) (decade-crossing cancellation that brings deep product digits to the front), zero and infinite operands in every position, product exponent near the range ends, generic word-patterned operands up to 300 (quick) / 4000 (thorough) digits; receiver fresh or aliased to x, y, u, x=y, x=u. Oracle: exact big.Int x*y+u rounded once (value, sign incl. IEEE zero-sum rule, accuracy), ErrNaN exactly for 0*Inf and Inf-Inf. Non-trivial = special operand, aliased receiver, Mul-then-Add would differ, exactly zero sum, or cancellation removing at least half of the product's digits. Cases whose exact product exponent leaves [MinExp,MaxExp] are excluded while the known finding F-03c is listed (counted under excluded_known)."
 
 var propC03 = &h.Prop[C03Case]{ID: "C03", Rule: ruleC03, Gen: genC03, Check: checkC03,
 	Matchers: map[string]func(C03Case) bool{"fma-product-exp-out-of-range": func(c C03Case) bool { return !c.Zone && fmaProductOutOfRange(c) }}}
 
 func TestC03(t *testing.T)       { propC03.Search(t) }
 func TestC03Replay(t *testing.T) { propC03.Replay(t) }
+
+// TestC03Grid: products with a short head, a run of 140 000 (300 000 in the thorough tier) zeros or nines, and a small
+// low part, plus an addend smaller than that low part (or cancelling it exactly): whether the result is exact, and
+// on which side of it the exact sum lies, is decided 140 000 digits below the rounding position by the product's own
+// lowest digits together with u. Expected results by construction.
+func TestC03Grid(t *testing.T) {
+	defer h.WriteStats("C03")
+	ns := []int{140000}
+	if h.Thorough() {
+		ns = append(ns, 300000)
+	}
+	cnt := 0
+	for _, n := range ns {
+		onePlus3 := h.Spec{F: "f", D: "1" + strings.Repeat("0", n-1) + "3", E: int64(n + 1), P: uint(n + 1)} // 10^n + 3
+		nines := h.Spec{F: "f", D: strings.Repeat("9", n), E: int64(n), P: uint(n)}                          // 10^n - 1
+		seven := h.Spec{F: "f", D: "7", E: 1, P: 1}
+		small := func(v int) h.Spec {
+			s := h.Spec{F: "f", D: strconv.Itoa(abs(v)), Neg: v < 0, P: 3}
+			s.E = int64(len(s.D))
+			s.D = strings.TrimRight(s.D, "0")
+			return s
+		}
+		type tc struct {
+			x     h.Spec
+			u     int
+			p     uint
+			m     model.Mode
+			d     string
+			e     int64
+			acc   model.Acc
+			about string
+		}
+		e := int64(n + 1)
+		cases := []tc{
+			{onePlus3, -1, 10, model.ToNearestEven, "7", e, model.Below, "(10^n+3)*7 - 1 = 7*10^n + 20"},
+			{onePlus3, -1, 10, model.AwayFromZero, "7000000001", e, model.Above, "(10^n+3)*7 - 1"},
+			{onePlus3, -20, 1, model.ToPositiveInf, "8", e, model.Above, "(10^n+3)*7 - 20 = 7*10^n + 1"},
+			{onePlus3, -21, 5, model.AwayFromZero, "7", e, model.Exact, "(10^n+3)*7 - 21 = 7*10^n exactly"},
+			{onePlus3, -22, 5, model.ToNearestEven, "7", e, model.Above, "(10^n+3)*7 - 22 = 7*10^n - 1"},
+			{onePlus3, -22, 5, model.ToZero, "69999", e, model.Below, "(10^n+3)*7 - 22 = 7*10^n - 1"},
+			{nines, 1, 10, model.ToNearestEven, "7", e, model.Above, "(10^n-1)*7 + 1 = 7*10^n - 6"},
+			{nines, 1, 10, model.ToZero, "6999999999", e, model.Below, "(10^n-1)*7 + 1"},
+			{nines, 7, 25, model.ToNegativeInf, "7", e, model.Exact, "(10^n-1)*7 + 7 = 7*10^n exactly"},
+			{nines, 8, 25, model.ToNegativeInf, "7", e, model.Below, "(10^n-1)*7 + 8 = 7*10^n + 1"},
+		}
+		for _, c := range cases {
+			for _, swap := range []bool{false, true} {
+				x, y, u := c.x.Build(), seven.Build(), small(c.u).Build()
+				if swap {
+					x, y = y, x
+				}
+				z := mkRecv(c.p, uint8(c.m))
+				z.FMA(x, y, u)
+				got := h.Read(z)
+				want := model.MkFinite(false, c.d, c.e)
+				o := &h.Obs{}
+				o.Label("giant-sparse-product")
+				o.NonTrivial()
+				if got.Malformed != "" || !got.Val().Equal(want) || model.Acc(got.Acc) != c.acc {
+					h.ReportGridFail(t, "C03", h.Failf("giant", "%s with n = %d at precision %d %v: got %v (%v), want %v (%v)", c.about, n, c.p, c.m, got.Val(), model.Acc(got.Acc), want, c.acc), mustJSON(struct {
+						N    int
+						U    int
+						P    uint
+						M    model.Mode
+						Swap bool
+					}{n, c.u, c.p, c.m, swap}))
+				}
+				cnt++
+			}
+		}
+	}
+	h.AddExtra("C03", "giant_sparse_products", cnt)
+}
+
+func abs(v int) int {
+	if v < 0 {
+		return -v
+	}
+	return v
+}
